@@ -17,10 +17,13 @@ pipelines.  Part 5 proves the recorded finding and the pre-repair defects *in th
 
 Modelling assumptions (not proved): Go's channel / select / WaitGroup semantics are as in
 `PipeSem.lean`; a data-dependent branch is an internal choice; `exit_always_reachable` shows that a
-terminating schedule EXISTS from every reachable state after cancellation — with Go's uniformly
-random `select` and a fair scheduler that gives termination with probability 1; that last
-probabilistic step and the termination of data loops / external calls (`p.Request` 5 s, HTTP 60 s,
-chain calls) are assumptions.
+terminating schedule EXISTS from every reachable state after cancellation (EF).  That EVERY run
+terminates (AF) is proved in `Props/C14Fair.lean` (`all_fair_runs_terminate` and the
+`*_every_fair_run_terminates` corollaries) under an explicit fairness hypothesis on infinite runs
+(`Model/PipeRun.lean: Fair`): weak fairness of goroutines, fairness of the `select` choice for the
+`<-ctx.Done()` and timer alternatives (what Go's uniformly random `select` gives with probability 1),
+and termination of data loops / external calls (`p.Request` 5 s, HTTP 60 s, chain calls) as fairness
+of internal choices.
 -/
 import DosModel.Proofs.PipeBridge
 import DosModel.Gen.PipeIR
